@@ -2514,6 +2514,13 @@ class PGPKey(Armorable, ParentRef, PGPObject):
                 issues = signature_issues | subkey_issues
                 if issues and issues.causes_signature_verify_to_fail:
                     sigv.add_sigsubj(sig, self, subj, issues)
+
+                elif (sig.type in {SignatureType.Standalone, SignatureType.Timestamp} and subj is not None
+                        and not (isinstance(subj, (str, bytes, bytearray)) and len(subj) == 0)):
+                    # RFC 4880, 5.2.1: such a signature covers only its own subpackets (it is computed as over a
+                    # zero-length document); it says nothing about a subject it is presented with
+                    sigv.add_sigsubj(sig, self, subj, SecurityIssues.WrongSig)
+
                 else:
                     verified = self._key.verify(sig.hashdata(subj), sig.__sig__, getattr(hashes, sig.hash_algorithm.name)())
                     if verified is NotImplemented:
